@@ -26,6 +26,9 @@ EXTENDS Integers, Sequences, FiniteSets, TLC
 
 CONSTANTS Proc, MaxIno, MaxPuts, Defects
 
+\* the lock upgrade / downgrade path is part of the model only when asked for (it admits a known two-writer schedule)
+UpgradeEnabled == "with_upgrade" \in Defects \/ "trace" \in Defects
+
 VARIABLES name,      \* inode the path currently names
           nextIno,   \* next fresh inode
           exLock,    \* inode -> holder of the exclusive flock, or "none"
@@ -186,6 +189,42 @@ CloseDirty(p) ==
   /\ last' = Obs(p, "close", "ok")
   /\ UNCHANGED <<nput>>
 
+\* downgrade_to_shared(): a clean writable handle becomes read-only and keeps (only) a shared lock
+Downgrade(p) ==
+  /\ h[p].st = "rw" /\ h[p].stage = 0 /\ ~h[p].dirty
+  /\ exLock' = [exLock EXCEPT ![h[p].lock] = IF @ = p THEN None ELSE @]
+  /\ shLock' = [shLock EXCEPT ![h[p].lock] = @ \cup {p}]
+  /\ h' = [h EXCEPT ![p].st = "ro"]
+  /\ last' = Obs(p, "downgrade", "ok")
+  /\ UNCHANGED <<name, nextIno, disk, lost, nput>>
+
+\* a mutation on a read-only handle first upgrades its lock (ensure_writable): the shared lock is released and the
+\* exclusive lock of the handle's OWN inode is taken - which may no longer be the inode the path names
+OthersHold(p, i) == (exLock[i] # None /\ exLock[i] # p) \/ (shLock[i] \ {p}) # {}
+UpgradeOk(p) ==
+  /\ h[p].st = "ro" /\ ~OthersHold(p, h[p].lock)
+  /\ exLock' = [exLock EXCEPT ![h[p].lock] = p]
+  /\ shLock' = [shLock EXCEPT ![h[p].lock] = @ \ {p}]
+  /\ h' = [h EXCEPT ![p].st = "rw"]
+  /\ last' = Obs(p, "upgrade", "ok")
+  /\ UNCHANGED <<name, nextIno, disk, lost, nput>>
+\* the upgrade times out: as built the handle has already given up its shared lock and now holds nothing
+UpgradeFail(p) ==
+  /\ h[p].st = "ro" /\ OthersHold(p, h[p].lock)
+  /\ shLock' = [shLock EXCEPT ![h[p].lock] = @ \ {p}]
+  /\ last' = Obs(p, "upgrade", "Lock")
+  /\ UNCHANGED <<name, nextIno, exLock, disk, h, lost, nput>>
+
+UpgradeThenPut(p) ==
+  /\ h[p].st = "ro" /\ ~OthersHold(p, h[p].lock) /\ nput < MaxPuts
+  /\ exLock' = [exLock EXCEPT ![h[p].lock] = p]
+  /\ shLock' = [shLock EXCEPT ![h[p].lock] = @ \ {p}]
+  /\ nput' = nput + 1
+  /\ disk' = [disk EXCEPT ![h[p].file].pend = @ \cup {nput + 1}]
+  /\ h' = [h EXCEPT ![p].st = "rw", ![p].dirty = TRUE, ![p].pins = @ + 1]
+  /\ last' = Obs(p, "put", "ok")
+  /\ UNCHANGED <<name, nextIno, lost>>
+
 \* in-place maintenance on the handle's own file (vacuum after its commit, apply_ticket, ...)
 InPlace(p) ==
   /\ h[p].st = "rw" /\ h[p].stage = 0
@@ -223,6 +262,7 @@ Abandon(p) ==
 
 Next == \E p \in Proc : \/ Open(p) \/ OpenReplay(p) \/ OpenBusy(p) \/ OpenRO(p) \/ OpenROBusy(p) \/ Put(p)
                         \/ CommitStage(p) \/ CommitRename(p) \/ InPlace(p) \/ Doctor(p)
+                        \/ (UpgradeEnabled /\ (Downgrade(p) \/ UpgradeOk(p) \/ UpgradeFail(p)))
                         \/ Close(p) \/ Abandon(p)
 
 Spec == Init /\ [][Next]_vars
